@@ -20,7 +20,7 @@ def search(rec, direction):
     n = len(vecs)
     x, fx = vecs[0]
     y, fy = vecs[1]
-    nb = 2 if (rec["kind"] == "real" and rec["family"] in zoo.COMPLEX_INPUT_OK) else 0    # trailing (Re, Im) pair of the complex-input probe
+    nb = 2 if (rec["kind"] == "real" and rec["family"] in zoo.COMPLEX_INPUT_OK and "apply_columns" not in str(rec["params"].get("expr", ""))) else 0    # trailing (Re, Im) pair of the complex-input probe
     z, fz = vecs[n - 2 - nb]
     z0, f0 = vecs[n - 1 - nb]
     if nb:
